@@ -312,6 +312,16 @@ def coq_failing_cases(ctx, name, requires, casetype, chk, terms, shard=400, extr
     Returns sorted list of failing indices, or None when Coq itself failed (reported as broken)."""
     if not terms:
         return []
+    # make sure the modules the case file imports are compiled from their current sources
+    targets = []
+    for mod in requires.split():
+        for d in ("theories", "gen"):
+            if os.path.exists(os.path.join(COQ, d, mod + ".v")):
+                targets.append("%s/%s.vo" % (d, mod))
+    rc, log = coq_make(targets)
+    if rc != 0:
+        ctx.broke("correspondence", "coq-build:%s" % name, log)
+        return None
     shards = [(i, terms[i:i + shard]) for i in range(0, len(terms), shard)]
 
     def one(job):
